@@ -3,7 +3,8 @@ import EpModel.Driver.EncLink
 import EpModel.Driver.EncNet
 import EpModel.Driver.Opt
 import EpModel.Model.Builder
-/- `build.*` operations (C10): PacketBuilder.
+import EpModel.Model.BuilderIo
+/- `build.*` operations (C10; `build.failw` / `build.slicebuf`: C16): PacketBuilder.
 
    build.write <cfg> <payload>
        → ok(size=<size()>,len=<bytes written>,b=<hex>)                              (len ≤ 2000)
@@ -12,6 +13,11 @@ import EpModel.Model.Builder
          err(ctor(...)) when a checked constructor / `.options()` rejects a configured value
    build.slice <cfg> <payload> <cap>
        → ok(n=<returned length>,…same body as build.write…) / err(Space(<required>)) / err(<variant>)
+
+   build.failw <cfg> <payload> <k>      `write` into a writer that accepts exactly k bytes, then fails
+       → ok|err(io)|err(<BuildWriteError variant>);w=<hex accepted by the writer>;post=<write calls after the failure>
+   build.slicebuf <cfg> <payload> <cap>  `write_to_slice` into the first cap bytes (0xaa) of a buffer with a canary behind
+       → <build.slice result>;buf=<hex of the cap bytes>;canary=intact|clobbered
 
    <payload> := <hex> | "-" | "len:" N ":" byte            (N copies of the byte)
 
@@ -308,8 +314,41 @@ def runSlice (cfg : Cfg) (payload : Bytes) (cap : Nat) : String :=
     | some e => s!"err({e})"
     | none => "panic"
 
+/-- `post`: calls after the first failure — a serialiser makes none by construction -/
+def runFailw (cfg : Cfg) (payload : Bytes) (k : Nat) : String :=
+  let (w, r) := writeFailing cfg payload k
+  let rs : Option String := match r with
+    | .ok () => some "ok"
+    | .error (.io e) => some e.render
+    | .error (.content c) => (showErr c).map fun e => s!"err({e})"
+  match rs with
+  | some rs => s!"{rs};w={hexOfBytes w.out};post=0"
+  | none => "panic"
+
+/-- `canary`: bytes behind the slice — the model has no way to touch them -/
+def runSliceBuf (cfg : Cfg) (payload : Bytes) (cap : Nat) : String :=
+  let rs := runSlice cfg payload cap
+  if rs = "panic" then rs
+  else s!"{rs};buf={hexOfBytes (sliceBuffer cfg cap payload 0xaa)};canary=intact"
+
+/-- the argument checks shared by all ops (the ARP step has no payload parameter) -/
+def withCfg (c p : String) (f : Cfg → Bytes → String) : Option String := do
+  let payload ← parsePayload p
+  match ← parseCfg c with
+  | .error m => pure m
+  | .ok cfg =>
+    match cfg.net with
+    | .arp _ => if payload ≠ [] then none else pure (f cfg payload)
+    | _ => pure (f cfg payload)
+
 def run (op : String) (args : List String) : Option String :=
   match op, args with
+  | "build.failw", [c, p, k] => do
+      let k ← argNat k
+      withCfg c p fun cfg payload => runFailw cfg payload k
+  | "build.slicebuf", [c, p, cap] => do
+      let cap ← natLt 1000000 cap
+      withCfg c p fun cfg payload => runSliceBuf cfg payload cap
   | "build.write", [c, p] => do
       let payload ← parsePayload p
       match ← parseCfg c with
